@@ -29,6 +29,10 @@ def configs(tier, seed):
                 if nseg == 2 and (shp[1] < 4 or Fraction(sc) < Fraction(3, 4)):
                     continue            # a segment would shrink to nothing: degenerate, not in the statement
                 out.append({'shape': list(shp), 'scale': sc, 'amp': amp, 'opd': opd, 'nseg': nseg})
+    # an aperture whose edge lies inside the array, under amplitude and OPD maps that are non-zero everywhere (a full-array piston/tilt map)
+    for shp in ((4, 4), (3, 4)):
+        for sc in ('3/4', '1', '5/4', '3/2', '2'):
+            out.append({'shape': list(shp), 'scale': sc, 'amp': 'array', 'opd': 'array', 'nseg': 1, 'inner': True})
     return out, len(out), True
 
 
@@ -41,7 +45,10 @@ def run(W, cfg):
     px = (W.real('pxr', pos=True), W.real('pxc', pos=True))
     A = W.reals('a', shp, lo='1/4', hi=1) if cfg['amp'] == 'array' else W.real('a', lo='1/4', hi=1)
     O = W.reals('o', shp, lo=-1, hi=1, nz=True) if cfg['opd'] == 'array' else W.real('o', lo=-1, hi=1)
-    if cfg['nseg'] == 1:
+    if cfg.get('inner'):
+        mask = rnp.zeros(shp, dtype=int)
+        mask[1:-1, 1:] = 1
+    elif cfg['nseg'] == 1:
         mask = rnp.ones(shp, dtype=int)
     else:
         mask = rnp.zeros((2,) + shp, dtype=int)
